@@ -215,6 +215,57 @@ func init() {
 			}
 			w.close()
 		}
+		// the window between Start() (message handler live) and RecoverSwaps() after a restart: the CLN plugin serves
+		// peer messages there.  A request for the channel of a stored, not yet restored swap must be refused, and the
+		// stored swap must be restored afterwards.
+		for _, fam := range []struct{ role, chain, rest, probe string }{
+			{"inSender", "btc", "AwaitClaimPayment", "new outReceiver btc scid=100:1:0"},
+			{"outReceiver", "lbtc", "AwaitClaimInvoicePayment", "new inReceiver lbtc scid=100x1x0 from=third"},
+			{"outSender", "btc", "AwaitTxBroadcastedMessage", "new inReceiver btc scid=100x1x0"},
+		} {
+			w := newWorld(defaultCfg())
+			a := newCtx(w)
+			pre := restPrefixes(fam.role, fam.chain)[fam.rest]
+			if len(pre) == 0 {
+				w.close()
+				continue
+			}
+			pre = append([]string{}, pre...)
+			pre[0] += " scid=100x1x0"
+			var hist []string
+			for _, st := range pre {
+				hist = append(hist, st+" -> "+a.Step(st))
+			}
+			stored := a.state()
+			// restart: a fresh service object on the same database, handler registered, recovery not yet run
+			w.mgr.stopAll()
+			w.boot(true, true)
+			b := newCtx(w)
+			sentBefore := len(w.msgr.sent)
+			hist = append(hist, "[Start(), before RecoverSwaps] "+fam.probe+" -> "+b.Step(fam.probe))
+			admitted := false
+			for _, m := range w.msgr.sent[sentBefore:] {
+				if m.typ == messages.MESSAGETYPE_SWAPINAGREEMENT || m.typ == messages.MESSAGETYPE_SWAPOUTAGREEMENT {
+					admitted = true
+				}
+			}
+			err := w.svc.RecoverSwaps()
+			_, restored := w.svc.VerifActiveSwaps()[a.id]
+			res.Evaluations++
+			res.Distinct++
+			res.Histogram["request before recovery ("+fam.role+")"]++
+			in := append(append([]string{}, hist...), fmt.Sprintf("RecoverSwaps -> %v; stored swap (%s) active again: %v", err, stored, restored))
+			if admitted {
+				res.addFinding("C10/busy-channel-request-not-cancelled/before-recovery", "a request for the channel of a stored, not yet restored swap was answered with an agreement", in)
+			}
+			if !restored && !finishedState(stored) {
+				res.addFinding("C10/stored-swap-not-restored/channel-taken-before-recovery", "a swap stored as "+stored+" was not restored after the restart because a request had taken its channel before RecoverSwaps ran", in)
+			}
+			if d := storedChannelClash(w); d != "" {
+				res.addFinding("C10/two-active-swaps-on-one-channel/stored", "two stored non-terminal swaps share channel "+d, in)
+			}
+			w.close()
+		}
 		// a swap whose claim keeps failing until the retry budget of one event is used up is still not finished: its
 		// channel stays taken (judged on the STORED records: what the node has, not what its registry remembers)
 		for _, fam := range []struct{ role, chain, fault, trigger string }{
